@@ -62,11 +62,12 @@ Fixpoint cut_gates (t : gtab) (c : circ) (ids : list nat) : out circ :=
       end
   end.
 
-(* sorted(wire_cut_actions, key=lambda a: a[1][0]): stable insertion sort by instruction id *)
+(* sorted(wire_cut_actions, key=lambda a: a[1][0]): stable insertion sort by instruction id
+   (fold_right inserts each action BEFORE the later ones of equal key, so equal keys keep their order) *)
 Fixpoint insert_sorted (a : action) (l : list action) : list action :=
   match l with
   | [] => [a]
-  | b :: r => if Nat.ltb (g_inst (a_gate a)) (g_inst (a_gate b)) then a :: b :: r else b :: insert_sorted a r
+  | b :: r => if Nat.ltb (g_inst (a_gate b)) (g_inst (a_gate a)) then b :: insert_sorted a r else a :: b :: r
   end.
 
 Definition sort_actions (l : list action) : list action := fold_right insert_sorted [] l.
